@@ -838,6 +838,32 @@ fn run_closure_capture(ops: &[Op]) {
     }
 }
 
+// ---------------------------------------------------------------- GC roots (C02, root phase)
+// A closure that is called right where it is created is referenced by its call frame only (the call pops the function
+// value).  Its body allocates enough garbage to make the collector run while it executes, then reads a captured
+// variable: the closure object and its upvalues must have survived.  ops[0] = (_, allocations, limit selector).
+// The unrepaired code frees the running closure: the process may crash (the search leaves the input in a file).
+fn run_gc_roots(ops: &[Op]) {
+    let last = ops.len() - 1;
+    let allocs = 500 + (ops[0].1 % 8) as i64 * 500;
+    let limit = [32usize, 48, 64, 96][(ops[0].2.unsigned_abs() % 4) as usize] * 1024;
+    let body = vec![
+        Card::repeat(Card::scalar_int(allocs), None, Card::set_var("t", CardBody::CreateTable)),
+        Card::set_global_var("g", Card::read_var("x")),
+    ];
+    let closure: Card = CardBody::Closure(Box::new(Function::default().with_cards(body))).into();
+    let cards = vec![Card::set_var("x", Card::scalar_int(42)), Card::dynamic_call(closure, vec![])];
+    let module = Module { functions: vec![("main".to_string(), Function::default().with_cards(cards))], ..Default::default() };
+    let program = compile(module, None).unwrap();
+    let mut vm = Vm::new(()).unwrap().with_max_iter(50_000_000);
+    vm.runtime_data.set_memory_limit(limit);
+    let r = vm.run(&program);
+    let g = vm.read_var_by_name("g", &program.variables);
+    if r.is_err() || !matches!(g, Some(Value::Integer(42))) {
+        fail("gc_roots", ops, last, format!("main {{ x = 42; (|| {{ repeat {allocs} {{ t = {{}} }}; g = x }})() }} with a {limit} byte heap: run {:?}, g = {g:?} (expected 42)", r.map(|_| ()).map_err(|e| e.payload)));
+    }
+}
+
 fn dispatch(unit: &str, ops: &[Op], variant: u64) {
     VARIANT.store(variant, std::sync::atomic::Ordering::Relaxed);
     match unit {
@@ -852,6 +878,7 @@ fn dispatch(unit: &str, ops: &[Op], variant: u64) {
         "error_trace" => run_error_trace(ops),
         "decode_walk" => run_decode_walk(ops),
         "closure_capture" => run_closure_capture(ops),
+        "gc_roots" => run_gc_roots(ops),
         _ => { eprintln!("unknown unit {unit}"); std::process::exit(2); }
     }
 }
